@@ -5,3 +5,9 @@ import SciVerif.Props.C07
 import SciVerif.Tie.C01
 import SciVerif.Tie.C06
 import SciVerif.Tie.C07
+import SciVerif.Props.C02
+import SciVerif.Props.C03
+import SciVerif.Props.C09
+import SciVerif.Tie.C02
+import SciVerif.Tie.C03
+import SciVerif.Tie.C09
